@@ -13,7 +13,7 @@ levels = tuple(int(x) for x in (sys.argv[2] if len(sys.argv) > 2 else '0123'))
 lsps = not (len(sys.argv) > 3 and sys.argv[3] == 'nolsps')
 stats = collections.Counter(); bad = []
 def body(p):
-    if '日本' in p['text'] or '\\ ' in p['text']: return
+    if '\u65e5\u672c' in p['text'] or '\\ ' in p['text']: return
     stats['n'] += 1
     try:
         t = es5(p['text'])
